@@ -2,7 +2,7 @@
 # builds the element-tree model runner `_build/avm_tree` from the extracted Coq model + tree_driver.ml
 set -e
 cd "$(dirname "$0")"
-python3 ../tools/coqmake.py Tree/Script2.vo Tree/CheckFn.vo >/dev/null || { echo "coq build of Tree/ failed"; python3 ../tools/coqmake.py Tree/Script2.vo Tree/CheckFn.vo | tail -20; exit 1; }
+python3 ../tools/coqmake.py Tree/Script2.vo Tree/CheckFn.vo Tree/MergePure.vo >/dev/null || { echo "coq build of Tree/ failed"; python3 ../tools/coqmake.py Tree/Script2.vo Tree/CheckFn.vo Tree/MergePure.vo | tail -20; exit 1; }
 mkdir -p gen _build/tree
 stamp=$(cat ../coq/Tree/*.v ../coq/Xml/Parser.v ../coq/Xml/Lexer.v ../coq/Xml/Serializer.v ../coq/Gen/XmlVexprs.v \
         ../coq/Spec/SpecOps.v ../coq/Hash/HashModel.v ../coq/Base/*.v ../coq/Regex/Vexpr.v ../coq/Regex/Bisim.v \
